@@ -126,7 +126,13 @@ pub enum EnvEvent {
     Clock { ms: u64 },
     Fault { path: String, kind: FaultKind },
     /// restore the pristine content (and for directory faults the whole subtree), mtime = now (> all earlier stamps)
-    Repair { path: String },
+    Repair {
+        path: String,
+        /// restore from a backup that keeps the file's OLD modification time (cp -p, rsync -t, an installer): the mtime moves
+        /// BACKWARDS to what it was before the fault instead of forwards to now
+        #[serde(default, skip_serializing_if = "is_false")]
+        keep_mtime: bool,
+    },
     RepairAll,
     /// mtime = now, content unchanged
     Touch { path: String },
@@ -135,6 +141,10 @@ pub enum EnvEvent {
     RemoveUserPrefs,
     /// replace a `Name: value` line inside the system prefs.yaml (user edits the shipped file)
     EditSysPref { mount: String, name: String, value: String },
+}
+
+fn is_false(b: &bool) -> bool {
+    !*b
 }
 
 #[derive(Serialize, Deserialize, Clone, Debug, PartialEq)]
